@@ -196,6 +196,10 @@ def make_distance_matrix_from_adjacency_matrix(AG):
     # Convert adjacency matrix to SciPy format if needed.
     if not sps.issparse(AG) and not isinstance(AG, np.ndarray):
         AG = np.asarray(AG)
+    if sps.issparse(AG):
+        # Accept every SciPy sparse format (csgraph itself only takes CSR, CSC and
+        # LIL); work on a copy so that the caller's matrix is left alone.
+        AG = sps.csr_matrix(AG, copy=True)
 
     # Compile distance matrix of the graph based on its shortest path
     # lengths.
